@@ -59,6 +59,18 @@ class Scenario:
                     def run(self):
                         return gen.convert_yielded(self._loop())
             src = Ticker(asynchronous=True, loop=IOLoop.current())
+        elif k == "kafka_poll":
+            # from_kafka (one message per emission) over the in-memory client: a polling loop of its own (poll; a message ->
+            # emit it and poll again; none -> sleep), with a start() of its own
+            import fake_ck
+            sys.modules["confluent_kafka"] = fake_ck
+            fake_ck.BROKER.reset()
+            fake_ck.BROKER.create("t", 1)
+            self.produced = 0
+            for _ in range(cfg.get("pre", 2)):
+                self.produce()
+            src = Stream.from_kafka(["t"], {"bootstrap.servers": "x", "group.id": "g", "auto.offset.reset": "earliest"},
+                                    poll_interval=cfg["poll"], asynchronous=True, loop=IOLoop.current())
         elif k == "iterable":
             src = Stream.from_iterable(iter(range(1, cfg["ni"] + 1)), asynchronous=True, loop=IOLoop.current())
         elif k == "iterable_list":
@@ -80,6 +92,8 @@ class Scenario:
             raise ValueError(k)
         self.src = src
         tail = src
+        if k == "kafka_poll":
+            tail = self._decode = src.map(int)
         if cfg.get("via") == "map_async":
             # an asynchronous node between the source and the consumer: stopping *it* stops the source as well -- and an element
             # of the cycle in progress that reaches it afterwards must not start the source again
@@ -112,9 +126,16 @@ class Scenario:
                 return r
             probe.update = update
 
+    def produce(self):
+        import fake_ck
+        self.produced += 1
+        fake_ck.BROKER.produce("t", 0, str(self.produced).encode())
+
     def op(self, c, arg=None):
         loop, log = self.loop, self.log
         n0 = len(log.ev)
+        if c == "K":
+            self.produce()        # (the broker is outside the model: whether a poll finds a message is the environment's choice)
         if c == "S":
             log.add("start")
             loop.do(self.src.start)
@@ -166,6 +187,8 @@ class Scenario:
         loop, log = self.loop, self.log
         if c in ("S", "T"):
             return True
+        if c == "K":
+            return self.cfg["kind"] == "kafka_poll" and self.produced < self.cfg["ni"]
         if c == "d":
             return bool(log.pending)
         if c == "s":
@@ -278,8 +301,10 @@ def main():
                 runs.append(run(cfg, sched, drain_polls=4))
     for cfg in json.loads(a.cfgs):
         al = ["S", "T", "s", "d", "a"] if cfg.get("cons", "future") != "sync" else ["S", "T", "s", "a"]
+        if cfg["kind"] == "kafka_poll":
+            al = al + ["K"]
         scheds = enumerate_schedules(cfg, al, a.depth, a.limit)
-        w = {"S": 2, "T": 2, "s": 5, "d": 2, "a": 3}
+        w = {"S": 2, "T": 2, "s": 5, "d": 2, "a": 3, "K": 2}
         for _ in range(a.random):
             n = rng.randint(5, a.maxlen)
             scheds.append([rng.choices(al, weights=[w[t] for t in al])[0] for _ in range(n)])
